@@ -48,7 +48,10 @@ CFG = {
         "and the queue are lock-protected (lint) and a worker is one goroutine. No axioms, nothing PENDING."
     ),
     "rule": (
-        "sequential: a random history (6..36 calls + probes) over 2..5 keys of one hasher.go key type, 1/2/3/5/127 "
+        "sequential: a random history (6..36 calls + probes) over 2..5 keys of one hasher.go key type (all eighteen "
+        "types take turns; keys at the boundaries of the type: min, max, 0, +-1, 2^31, 2^32, values >= 2^63 of the "
+        "unsigned 64-bit types whose HashedInt() is negative; keys are handed to the group as the real hasher.go "
+        "values unless the history cancels contexts), 1/2/3/5/127 "
         "workers, map or LRU(0..6,100) facade, data that become plain values or cache.Values of size 0,1,cap-1,cap,cap+1,3*cap, built by NewWorkGrp+logging facade or by NewWorkGrpWithMapCache/"
         "WithLRU, callback faults at rate 0/0.1/0.25/0.5, '(nil, nil)' answers at rate 0/0.05/0.15, context "
         "cancellation by a callback at rate 0/0.08/0.2 (each followed by a barrier call); non-trivial = at least one cache hit and one successful "
@@ -76,6 +79,12 @@ CFG = {
         "worker, handlers of one worker run one after another)",
     ],
     "assumptions": [
+        "routing is a function of the key alone: the model takes HashedInt() of every key as data (the key itself "
+        "for the plain-conversion types, Go's crc32 value for the others) and applies locHash; the sequential "
+        "monitor additionally checks on the observations that every call on a key is served by the same cache",
+        "mux.Bytes keys can be routed but not stored by either real facade (a []byte is not comparable: DoGet "
+        "panics in the caller, every other call panics in the worker goroutine); the logging facade hands the real "
+        "facade a string with the same content, so only Bytes.HashedInt is exercised for that type",
         "a store callback that returns an error has not changed the store (c15_failed_callback_changes_nothing is "
         "this property of the modelled store; the harness store behaves so)",
         "store callbacks are key-local: a callback for key k reads and writes only k's row",
